@@ -12,9 +12,9 @@ def gen(tier, rnd):
     cases = []
     cid = [0]
 
-    def case(ops, mode=0, start=0, nres=1):
+    def case(ops, mode=0, start=0, nres=1, big=0):
         cid[0] += 1
-        cases.append((cid[0], ['X id=%d mode=%d start=%d nres=%d' % (cid[0], mode, start, nres)] + ops + ['E']))
+        cases.append((cid[0], ['X id=%d mode=%d start=%d nres=%d big=%d' % (cid[0], mode, start, nres, big)] + ops + ['E']))
     for mode in (0, 1, 2):
         for start in (0, 16777210):
             # steady stream of changes: ordering, 1-in-6 CON, wrap
@@ -43,6 +43,14 @@ def gen(tier, rnd):
             case(['G 0 0 a1', 'G 1 1 b1', 'H 0', 'I 50', 'D 0', 'I 50', 'H 1', 'I 50'], mode, start, nres=2)
             # the session stays alive while it has observers (server session timeout is 300 s)
             case(['G 0 0 a1', 'H 0', 'I 50', 'I 400000', 'H 0', 'I 50', 'I 700000', 'H 0', 'I 50'], mode, start)
+    # notifications larger than one block (representation of 40 / 100 / 1000 bytes in blocks of 32): the observer fetches the rest, or does not
+    for mode in (0, 1, 2):
+        for bigl in (40, 100, 1000):
+            for pol in ('fetch', 'ack'):
+                case(['P 0 %s' % pol, 'G 0 0 a1'] + ['H 0', 'I 50'] * 9 + ['I 5000', 'H 0 3', 'I 100', 'H 0', 'I 5000'], mode, 0, big=bigl)
+            case(['P 0 fetch', 'P 1 ack', 'G 0 0 a1', 'G 1 0 b1', 'H 0', 'I 10', 'H 0', 'I 10', 'H 0', 'I 3000', 'U 0 0 a1', 'H 0', 'I 50', 'H 0 2', 'I 5000'], mode, 0, big=bigl)
+            case(['P 0 fetch', 'G 0 0 a1', 'H 0', 'I 50', 'P 0 drop'] + ['H 0', 'I 50'] * 7 + ['I 200000', 'H 0', 'I 5000'], mode, 0, big=bigl)
+            case(['P 0 fetch', 'G 0 0 a1', 'H 0', 'I 50', 'P 0 rstall', 'H 0', 'I 50', 'H 0', 'I 5000'], mode, 0, big=bigl)
     # a Reset that answers an OLDER notification (known finding KF_C11_RST_OLD_NOTIFICATION)
     case(['G 0 0 a1', 'H 0', 'I 50', 'P 0 rstold', 'H 0', 'I 50', 'I 1000', 'H 0', 'I 50', 'H 0', 'I 50'], 0, 0)
     # a change still pending (its pass deferred behind an unacknowledged Confirmable notification) when another observation is registered
@@ -69,12 +77,12 @@ def gen(tier, rnd):
             elif r < 0.85:
                 ops.append('I %d' % rnd.choice((10, 50, 50, 3000, 100000, 400000)))
             elif r < 0.93:
-                ops.append('P %d %s' % (c, rnd.choice(('ack', 'ack', 'drop', 'rst', 'rstall'))))
+                ops.append('P %d %s' % (c, rnd.choice(('ack', 'ack', 'fetch', 'drop', 'rst', 'rstall'))))
             elif r < 0.97:
                 ops.append('M %d %d' % (rs, rnd.choice((69, 132, 160))))
             else:
                 ops.append('D %d' % rs)
-        case(ops, rnd.choice((0, 0, 1, 2)), rnd.choice((0, 0, 16777200)), nres)
+        case(ops, rnd.choice((0, 0, 1, 2)), rnd.choice((0, 0, 16777200)), nres, big=rnd.choice((0, 0, 0, 70, 300)))
     return cases
 
 
